@@ -56,7 +56,9 @@ class State:
 
     def log(self, name, args, results, pos, kind="call"):
         """append a trace entry together with a snapshot of the heap at the time of the call"""
-        self.trace.append(Ev(name, args, results, pos, kind, dict(self.heap), list(self.held)))
+        ev = Ev(name, args, results, pos, kind, dict(self.heap), list(self.held))
+        self.trace.append(ev)
+        self.eng.after_call(self, ev)
 
     def assume(self, c):
         if isinstance(c, bool):
